@@ -17,8 +17,9 @@ Cases == ndJsonDeserialize(IOEnv.VERIF_CASES)
 Props == {"D1", "D2", "D3", "D4", "D5"}
 
 Pre(c) == [R |-> c.in.R, pt |-> c.in.pt, pv |-> c.in.pv, st |-> c.in.st, sv |-> c.in.sv, ut |-> c.in.ut, uv |-> c.in.uv,
-           nx |-> c.in.nx, n |-> c.in.n, olds |-> c.in.olds]
-Post(c) == [Pre(c) EXCEPT !.nx = c.out.nx, !.n = c.out.n, !.olds = c.out.olds]
+           r0 |-> c.in.r0, nx |-> c.in.nx, n |-> c.in.n, olds |-> c.in.olds]
+Post(c) == [Pre(c) EXCEPT !.r0 = c.in.R, !.nx = c.out.nx, !.n = c.out.n, !.olds = c.out.olds]
+Start(c) == [Pre(c) EXCEPT !.r0 = c.in.R]      \* a convergence run starts with a sync
 
 \* a panic leaves no post-state; a sync that returned an error still has one and is judged on it.
 \* Ante = the clause speaks about this step (counted in TRACE-DONE), Holds = what it demands.
@@ -37,15 +38,19 @@ Holds(n, c) ==
     [] n = "D4" -> C4(Pre(c), Post(c))
     [] n = "D5" -> c.out.fix /\ Converged(Post(c))
 
-\* drift that the new-ReplicaSet floor of the code (NewRSReplicasLowerBound) explains is tagged "floor"
+\* drift that the two deviations of the code named in AdvDeployment.tla (CodeSync) explain is tagged
+\* "code", anything else "fn"
 DriftBase(c) ==
-  IF c.panic = "" /\ c.in.act = "Sync" /\ Post(c) = CodeSync(Pre(c)) THEN "floor" ELSE "fn"
+  IF c.panic # "" THEN "fn"
+  ELSE IF c.in.act = "Sync" THEN (IF Post(c) = CodeSync(Pre(c)) THEN "code" ELSE "fn")
+  ELSE LET r == FairRun(Start(c), FairBudget(Pre(c)), TRUE)
+       IN  IF r.fix = c.out.fix /\ r.x = Post(c) THEN "code" ELSE "fn"
 
 DriftFields(c) ==
   IF c.panic # "" THEN {"panic"}
   ELSE
     LET x   == Pre(c)
-        ref == IF c.in.act = "Sync" THEN [fix |-> FALSE, x |-> RefSync(x)] ELSE FairRun(x, FairBudget(x))
+        ref == IF c.in.act = "Sync" THEN [fix |-> FALSE, x |-> RefSync(x)] ELSE FairRun(Start(c), FairBudget(x), FALSE)
     IN  {f \in {"nx", "n", "olds"} : ref.x[f] # c.out[f]}
           \cup (IF ref.fix # c.out.fix THEN {"fix"} ELSE {})
           \cup (IF c.err # "" THEN {"err"} ELSE {})
